@@ -29,8 +29,16 @@ for on, (opts, defs, types, ks) in OPTS.items():
                           tiers=('quick', 'thorough') if (on, t) in Q and k != 'uper' else ('thorough',),
                           functions=['%s %s of %s generated with %s' % (k, 'encoder' if kind == 'enc' else 'decoder', t, ' '.join(opts))],
                           inputs='every value of %s' % t, bounds='option set fixed per query')
-                base = [] if 'noconstr' in on or on == 'combo' else h.gen['opts']
-                h.gen = dict(h.gen, opts=base + opts)
+                if 'noconstr' in on or on == 'combo':
+                    # no PER/OER at all: the generated Makefile would pass these defines
+                    dis = ['-DASN_DISABLE_OER_SUPPORT', '-DASN_DISABLE_PER_SUPPORT']
+                    h.gen = dict(h.gen, opts=['-no-gen-PER', '-no-gen-OER'] + opts, cflags=dis)
+                    h.defines += dis
+                    h.src_defines += dis
+                else:
+                    h.gen = dict(h.gen, opts=h.gen['opts'] + opts)
+                if kind == 'dec' and t == 'T_ChoC':
+                    h.tiers = ('thorough',)      # deepening of the nested CHOICE/SEQUENCE decoder exceeds the quick budget
                 HARNESSES.append(h)
 # disabling an unused codec
 for t in ('T_Seq', 'T_Cho'):
@@ -41,6 +49,10 @@ for t in ('T_Seq', 'T_Cho'):
             h = typed(H, 'opt_%s_enc_%s_%s' % (off[1:].replace('-', ''), t, k), 'typed/enc_exact.c', t, k, tiers=('thorough',),
                       functions=['%s encoder of %s generated with %s' % (k, t, off)], inputs='every value of %s' % t)
             h.gen = dict(h.gen, opts=[o for o in h.gen['opts'] if o != off.replace('-no-', '-')] + [off])
+            dis = ['-DASN_DISABLE_OER_SUPPORT'] if 'OER' in off else ['-DASN_DISABLE_PER_SUPPORT']
+            h.gen['cflags'] = dis
+            h.defines += dis
+            h.src_defines += dis
             HARNESSES.append(h)
 ASSUMPTIONS = ['two option sets agree with each other because each agrees with the same option-independent reference encoder']
 OUTSIDE = ['-funnamed-unions', 'values representable only under -fwide-types (beyond long)', 'XER']
